@@ -898,3 +898,228 @@ Proof.
   - cbn. repeat constructor; cbn; intuition congruence.
   - vm_compute. repeat split; auto.
 Qed.
+
+(* ------------------------------------------------------------------------------------------ *)
+(* Part 4: a single consumer never sees a spurious done                                        *)
+
+Lemma estep_noreset t e e' evs eth :
+  nth_error (E.thr e) t = Some eth ->
+  eth = eth_set \/ popping eth \/ (exists w c, eth = eth_cas w c) \/ (exists w, eth = eth_wait w) ->
+  E.step t e = Some (e', evs) -> forall p ok, ~ In (E.EResetCas p ok) evs.
+Proof.
+  intros Hn Hsh. unfold E.step. rewrite Hn.
+  destruct Hsh as [->|[(p & r & ->)|[(w & c & ->)|(w & ->)]]]; cbn.
+  - intros [= <- <-] p ok [H|[]]; discriminate.
+  - destruct p as [| |pw]; try discriminate. intros [= <- <-] p ok [H|[]]; discriminate.
+  - destruct (E.ptr_eqb (E.top e) c); [|destruct (E.top e)]; intros [= <- <-] p ok Hin; cbn in Hin;
+      repeat (destruct Hin as [Hin|Hin]; try discriminate); contradiction.
+  - destruct (E.top e); intros [= <- <-] p ok Hin; cbn in Hin;
+      repeat (destruct Hin as [Hin|Hin]; try discriminate); contradiction.
+Qed.
+
+Definition wpc (p : pc) : bool :=
+  match p with AWaitEv _ | ASusp _ | AResetEv _ | AUnlock (Some _) => true | _ => false end.
+Definition is_nil {A} (l : list A) : bool := match l with [] => true | _ => false end.
+Definition cons_th (th : thread) : bool := negb (is_nil (nexts_of (prog th))) || wpc (apc th).
+Fixpoint ccount (l : list thread) : nat :=
+  match l with [] => 0 | th :: r => b2n (cons_th th) + ccount r end.
+Lemma ccount_app a b : ccount (a ++ b) = ccount a + ccount b.
+Proof. induction a; cbn; lia. Qed.
+
+Lemma ccount_zero_nth l t th : ccount l = 0 -> nth_error l t = Some th -> cons_th th = false.
+Proof.
+  revert t; induction l as [|y r IH]; intros [|t] H Hn; cbn in *; try discriminate.
+  - injection Hn as ->. destruct (cons_th th); cbn in H; [lia|reflexivity].
+  - eapply IH; eauto. lia.
+Qed.
+
+Definition PR (w : nat) (e : E.st) : nat := cnt w (pending e) + cnt w (E.resumed e).
+
+Definition SC (s : st) : Prop :=
+  ccount (thr s) <= 1 /\
+  (forall w, In (w, false) (results s) -> s3v s = Done) /\
+  (forall t th w, nth_error (thr s) t = Some th -> apc th = AUnlock (Some (w, false)) -> s3v s = Done) /\
+  (forall t th w, nth_error (thr s) t = Some th -> (apc th = AWaitEv w \/ apc th = ASusp w) ->
+     1 <= PR w (ev s) -> sigv s = true).
+
+Lemma PR_inject w t c e : nth_error (E.thr e) t = Some ev_idle -> PR w (inject t c e) = PR w e.
+Proof.
+  intros Hn. unfold PR, pending, inject; cbn [E.thr E.resumed].
+  pose proof (flat_map_set_nth th_pending w t ev_idle {| E.prog := [c]; E.tpc := E.PIdle |} _ Hn) as H.
+  change (th_pending ev_idle) with (@nil nat) in H.
+  change (th_pending {| E.prog := [c]; E.tpc := E.PIdle |}) with (@nil nat) in H. cbn [cnt] in H. lia.
+Qed.
+
+Lemma is_resumed_PR w e : is_resumed w e = true -> 1 <= PR w e.
+Proof.
+  unfold is_resumed, PR. intros H. apply existsb_exists in H as (x & Hin & Hx).
+  apply Nat.eqb_eq in Hx. subst x. apply cnt_In in Hin. lia.
+Qed.
+
+(* the stepping thread sits at index length l1; every other thread is unchanged *)
+Lemma nth_other {A} (l1 : list A) a b l2 t x :
+  t <> length l1 -> nth_error (l1 ++ b :: l2) t = Some x -> nth_error (l1 ++ a :: l2) t = Some x.
+Proof. intros Hne H. now rewrite (nth_error_mid_neq l1 a b l2 t Hne). Qed.
+
+Lemma nth_in_parts {A} (l1 : list A) a l2 t x :
+  t <> length l1 -> nth_error (l1 ++ a :: l2) t = Some x ->
+  (exists t1, nth_error l1 t1 = Some x) \/ (exists t2, nth_error l2 t2 = Some x).
+Proof.
+  intros Hne Hn. destruct (Nat.lt_ge_cases t (length l1)) as [Hlt|Hge].
+  - rewrite nth_error_app1 in Hn by exact Hlt. eauto.
+  - rewrite nth_error_app2 in Hn by exact Hge.
+    destruct (t - length l1) as [|k] eqn:Ek; [lia|]. cbn in Hn. eauto.
+Qed.
+
+Lemma other_not_consumer l1 (a : thread) l2 t x :
+  ccount l1 = 0 -> ccount l2 = 0 -> t <> length l1 -> nth_error (l1 ++ a :: l2) t = Some x ->
+  cons_th x = false.
+Proof.
+  intros H1 H2 Hne Hn. destruct (nth_in_parts _ _ _ _ _ Hne Hn) as [[t1 Ht]|[t2 Ht]].
+  - exact (ccount_zero_nth _ _ _ H1 Ht).
+  - exact (ccount_zero_nth _ _ _ H2 Ht).
+Qed.
+
+Lemma PR_le_total w e : PR w e <= total w e.
+Proof. unfold PR, total. lia. Qed.
+
+Lemma step_sc ready0 W0 t s s' evs :
+  (forall w, cnt w W0 <= 1) -> OInv ready0 W0 s -> LInv W0 s -> SC s ->
+  step t s = Some (s', evs) -> SC s'.
+Proof.
+  intros HW (O1 & O2 & O3 & O4 & O5) (Hlen & Hrel & HI1 & HE3 & Hfl) (C0 & S2 & S3 & S4) H.
+  ostep H.
+  all: pose proof (pcount_special_le l1) as Hs1; pose proof (pcount_special_le l2) as Hs2.
+  all: assert (Htl : length l1 < length (E.thr e)) by (rewrite Hlen, app_length; cbn; lia).
+  all: destruct (nth_error (E.thr e) (length l1)) as [eth|] eqn:Eeth;
+         [|apply nth_error_None in Eeth; lia].
+  all: destruct (Hrel (length l1) _ eth (nth_error_mid _ _ _) Eeth) as [Hr0 Hc0]; cbn [apc] in Hr0, Hc0.
+  all: subst t.
+  all: pose proof (fun w => S3 (length l1) _ w (nth_error_mid _ _ _)) as S3me; cbn [apc] in S3me.
+  all: pose proof (fun w => S4 (length l1) _ w (nth_error_mid _ _ _)) as S4me; cbn [apc] in S4me.
+  all: unfold SC, flag_ok, sigv in *; cbn [ev mtx s3v thr results effs] in *.
+  all: rewrite ?pcount_app, ?ccount_app in *; cbn [pcount ccount apc prog holds special b2n cons_th wpc] in *.
+  all: split; [unfold cons_th in *; cbn [prog apc wpc nexts_of flat_map app is_nil negb orb] in *;
+               repeat match goal with |- context [is_nil ?x] => destruct (is_nil x) end;
+               cbn [negb orb b2n] in *; lia|].
+  (* (w,false) in results -> DONE *)
+  all: split; [intros w0 Hin;
+               first [ specialize (S2 w0 Hin); congruence
+                     | destruct fin as [[w1 [|]]|]; cbn in Hin;
+                       [ destruct Hin as [Heq|Hin]; [discriminate|exact (S2 _ Hin)]
+                       | destruct Hin as [Heq|Hin]; [exact (S3me w1 eq_refl)|exact (S2 _ Hin)]
+                       | exact (S2 _ Hin) ] ]|].
+  (* about to complete with done -> DONE *)
+  all: (split; [intros t0 th0 w0 Hn0 Hp0; destruct (Nat.eq_dec t0 (length l1)) as [->|Hne];
+         [ rewrite nth_error_mid in Hn0; injection Hn0 as <-; cbn [apc] in Hp0; try discriminate
+         | pose proof (S3 _ _ _ (nth_other _ _ _ _ _ _ Hne Hn0) Hp0); congruence ]|]).
+  (* leftover: try_reset found UNSET / DONE *)
+  12: { exfalso. pose proof (S4me cw (or_intror eq_refl) (is_resumed_PR _ _ Eres)) as Hsig.
+        apply Hfl in Hsig; [congruence|lia]. }
+  14: reflexivity.
+  (* waiting => (popped or resumed => signalled): steps that leave the event alone or only hand it a command *)
+  Ltac s4_same S4 :=
+    let t0 := fresh "t0" in let th0 := fresh "th0" in let w0 := fresh "w0" in
+    let Hn0 := fresh "Hn0" in let Hp0 := fresh "Hp0" in let HP := fresh "HP" in let Hne := fresh "Hne" in
+    intros t0 th0 w0 Hn0 Hp0 HP;
+    match type of Hn0 with nth_error (?l1 ++ _ :: _) _ = _ =>
+      destruct (Nat.eq_dec t0 (length l1)) as [->|Hne];
+      [ rewrite nth_error_mid in Hn0; injection Hn0 as <-; cbn [apc] in Hp0; destruct Hp0; discriminate
+      | rewrite ?PR_inject in HP by assumption; cbn [inject E.top];
+        exact (S4 _ _ _ (nth_other _ _ _ _ _ _ Hne Hn0) Hp0 HP) ]
+    end.
+  1,2,3,4: cbn [th_rel] in Hr0; subst eth; s4_same S4.
+  (* a thread other than the stepping consumer cannot be waiting: single consumer *)
+  Ltac other_waits C0 Hne Hn0 Hp0 :=
+    exfalso;
+    match type of Hn0 with nth_error (?l1 ++ _ :: ?l2) ?t0 = Some ?th0 =>
+      assert (Hz : ccount l1 = 0 /\ ccount l2 = 0) by (unfold cons_th in C0; cbn in C0; rewrite ?orb_true_r in C0; cbn in C0; lia);
+      destruct Hz as [Hz1 Hz2];
+      pose proof (other_not_consumer _ _ _ _ _ Hz1 Hz2 Hne Hn0) as Hnc;
+      unfold cons_th in Hnc; destruct Hp0 as [Hp0|Hp0]; rewrite Hp0 in Hnc; cbn in Hnc;
+      rewrite orb_true_r in Hnc; discriminate
+    end.
+  (* next: the load *)
+  1,2: cbn [th_rel] in Hr0; subst eth;
+       destruct (inject_nth (length l1) (E.CWait w) e Htl) as (Hin & Hio & Hil);
+       assert (Hinj1 : Inv1 (inject (length l1) (E.CWait w) e))
+         by (apply inject_inv1; [assumption|assumption|
+             intros w1; pose proof (HW w1); afutn HE3 w1; cbn [cmd_waits cnt]; lia]);
+       intros t0 th0 w0 Hn0 Hp0 HP; destruct (Nat.eq_dec t0 (length l1)) as [->|Hne];
+       [ rewrite nth_error_mid in Hn0; injection Hn0 as <-; cbn [apc] in Hp0;
+         assert (w0 = w) by (destruct Hp0 as [Hp0|Hp0]; congruence); subst w0;
+         destruct Hinj1 as (A & B & C);
+         destruct (step_sigP _ _ _ _ w B Est
+                     (estep_noreset _ _ _ _ _ Hin (or_intror (or_intror (or_intror (ex_intro _ w eq_refl)))) Est) HP)
+           as [[HPold _]|Hs]; [|exact Hs];
+         exfalso; fold (PR w (inject (length l1) (E.CWait w) e)) in HPold;
+         rewrite PR_inject in HPold by assumption;
+         pose proof (PR_le_total w e); pose proof (HW w); afutn HE3 w; rewrite Nat.eqb_refl in HE3; lia
+       | other_waits C0 Hne Hn0 Hp0 ].
+  (* inside event_.set(): the exchange signals; the pops keep the flag *)
+  1,2: cbn [th_rel] in Hr0;
+       assert (Hnr : forall p ok, ~ In (E.EResetCas p ok) eevs)
+         by (eapply estep_noreset; [exact Eeth| |exact Est];
+             destruct Hr0 as [->|Hp]; [left; reflexivity|right; left; exact Hp]);
+       intros t0 th0 w0 Hn0 Hp0 HP; destruct (Nat.eq_dec t0 (length l1)) as [->|Hne];
+       [ rewrite nth_error_mid in Hn0; injection Hn0 as <-; cbn [apc] in Hp0; destruct Hp0; discriminate
+       | destruct HI1 as (A & B & C);
+         destruct (step_sigP _ _ _ _ w0 B Est Hnr HP) as [[HPold Hs]|Hs]; [|exact Hs];
+         rewrite Hs; exact (S4 _ _ _ (nth_other _ _ _ _ _ _ Hne Hn0) Hp0 HPold) ].
+  (* unlock *)
+  1: cbn [th_rel] in Hr0; subst eth; s4_same S4.
+  (* the CAS loop of the consumer's own wait *)
+  1,2: cbn [th_rel] in Hr0; destruct Hr0 as [c ->];
+       assert (Hnr : forall p ok, ~ In (E.EResetCas p ok) eevs)
+         by (eapply estep_noreset; [exact Eeth| |exact Est]; right; right; left; eauto);
+       intros t0 th0 w0 Hn0 Hp0 HP; destruct (Nat.eq_dec t0 (length l1)) as [->|Hne];
+       [ rewrite nth_error_mid in Hn0; injection Hn0 as <-; cbn [apc] in Hp0;
+         assert (w0 = cw) by (destruct Hp0 as [Hp0|Hp0]; congruence); subst w0;
+         destruct HI1 as (A & B & C);
+         destruct (step_sigP _ _ _ _ cw B Est Hnr HP) as [[HPold Hs]|Hs]; [|exact Hs];
+         rewrite Hs; exact (S4me cw (or_introl eq_refl) HPold)
+       | other_waits C0 Hne Hn0 Hp0 ].
+  (* try_reset's lock *)
+  1,2,3: cbn [th_rel] in Hr0; subst eth; s4_same S4.
+  (* inside event_.reset(): only the consumer itself can be here *)
+  1,2: intros t0 th0 w0 Hn0 Hp0 HP; destruct (Nat.eq_dec t0 (length l1)) as [->|Hne];
+       [ rewrite nth_error_mid in Hn0; injection Hn0 as <-; cbn [apc] in Hp0; destruct Hp0; discriminate
+       | other_waits C0 Hne Hn0 Hp0 ].
+Qed.
+
+Definition consumers (progs : list (list cmd)) : nat :=
+  length (filter (fun p => negb (is_nil (nexts_of p))) progs).
+
+Lemma init_sc ready0 progs : consumers progs <= 1 -> SC (init ready0 progs).
+Proof.
+  intros Hc. unfold SC, init; cbn [thr results s3v ev]. split; [|split; [|split]].
+  - assert (H : ccount (map (fun p => {| prog := p; apc := AIdle |}) progs) = consumers progs).
+    { clear Hc. unfold consumers. induction progs as [|p l IH]; cbn; [reflexivity|].
+      unfold cons_th at 1; cbn [prog apc wpc]. rewrite orb_false_r.
+      destruct (negb (is_nil (nexts_of p))); cbn; rewrite IH; reflexivity. }
+    lia.
+  - intros w [].
+  - intros t th w Hn Hp. apply nth_error_In in Hn. apply in_map_iff in Hn as (p & <- & _). discriminate.
+  - intros t th w Hn Hp. apply nth_error_In in Hn. apply in_map_iff in Hn as (p & <- & _).
+    destruct Hp; discriminate.
+Qed.
+
+(* With a single consumer (all next commands in one thread's program) a next completes with
+   done only if the event is DONE: no spurious done. *)
+Theorem single_consumer_done_only_if_done ready0 progs sched :
+  NoDup (all_nexts progs) -> consumers progs <= 1 ->
+  let s := fst (run step sched (init ready0 progs, [])) in
+  forall w, In (w, false) (results s) -> s3v s = Done.
+Proof.
+  intros Hnd Hc. pose proof (NoDup_cnt_le _ Hnd) as HW.
+  assert (H : AInv ready0 (all_nexts progs) (fst (run step sched (init ready0 progs, []))) /\
+              SC (fst (run step sched (init ready0 progs, [])))).
+  { apply (run_invariant_state st nat aev step
+             (fun s => AInv ready0 (all_nexts progs) s /\ SC s)).
+    - intros s0 t s' evs [[HO HL] HS] Hs. split; [split|].
+      + eapply step_oinv; eauto.
+      + eapply step_linv; eauto.
+      + eapply step_sc; eauto.
+    - split; [split; [apply init_oinv|apply init_linv]|apply init_sc; exact Hc]. }
+  destruct H as [_ (_ & S2 & _)]. exact S2.
+Qed.
